@@ -78,6 +78,88 @@ func (e *Engine) wide2(a, b Value, extra int) (*Term, *Term) {
 	return e.ts.Sext(x, w), e.ts.Sext(y, w)
 }
 
+// mkWide wraps a signed term, dropping redundant sign bits of constants.
+func (e *Engine) mkWide(t *Term) *WideV { return &WideV{T: e.shrink(t)} }
+
+// unsignedOf: if the exact integer is syntactically non-negative (a zero
+// extension or a non-negative constant) return its unsigned magnitude.
+func (e *Engine) unsignedOf(v Value) (*Term, bool) {
+	t := e.wide(v)
+	if t.IsConst() {
+		if t.Val.Bit(t.W-1) == 0 {
+			w := max(t.Val.BitLen(), 1)
+			return e.ts.BV(t.Val, w), true
+		}
+		return nil, false
+	}
+	if t.Op == OpZext && t.Args[0].W < t.W {
+		return t.Args[0], true
+	}
+	return nil, false
+}
+
+func (e *Engine) unsigned2(a, b Value) (*Term, *Term, bool) {
+	x, ok := e.unsignedOf(a)
+	if !ok {
+		return nil, nil, false
+	}
+	y, ok := e.unsignedOf(b)
+	if !ok {
+		return nil, nil, false
+	}
+	return x, y, true
+}
+
+// limbMul multiplies two unsigned terms exactly; operands wider than 64 bits
+// are split into 64-bit limbs (schoolbook), so that every product node is a
+// 64x64->128 multiplication -- the same nodes math/bits.Mul64 produces.
+func (e *Engine) limbMul(x, y *Term) *Term {
+	ts := e.ts
+	W := x.W + y.W
+	if x.W <= 64 && y.W <= 64 {
+		return ts.Zext(ts.Bin(OpBvMul, ts.Zext(x, W), ts.Zext(y, W)), W+1)
+	}
+	limbs := func(t *Term) []*Term {
+		var ls []*Term
+		for lo := 0; lo < t.W; lo += 64 {
+			hi := min(lo+63, t.W-1)
+			ls = append(ls, ts.Extract(t, hi, lo))
+		}
+		return ls
+	}
+	xs, ys := limbs(x), limbs(y)
+	acc := ts.BVu(0, W+1)
+	for i, xi := range xs {
+		for j, yj := range ys {
+			pw := xi.W + yj.W
+			p := ts.Bin(OpBvMul, ts.Zext(xi, pw), ts.Zext(yj, pw))
+			sh := 64 * (i + j)
+			var term *Term
+			if sh == 0 {
+				term = ts.Zext(p, W+1)
+			} else {
+				term = ts.Zext(ts.Concat(p, ts.BVu(0, sh)), W+1)
+			}
+			acc = ts.Bin(OpBvAdd, acc, term)
+		}
+	}
+	// the sum is < 2^W: present it as a zero extension so non-negativity stays syntactic
+	return ts.Zext(ts.Extract(acc, W-1, 0), W+1)
+}
+
+func (e *Engine) fitsBits(x *Term, n int) *Term {
+	ts := e.ts
+	if u, ok := e.unsignedOf(&WideV{T: x}); ok {
+		if u.W <= n {
+			return ts.True
+		}
+		return ts.Eq(ts.Extract(u, u.W-1, n), ts.BVu(0, u.W-n))
+	}
+	w := max(x.W, n+2)
+	sx := ts.Sext(x, w)
+	return ts.And(ts.Cmp(OpBvSle, ts.BVu(0, w), sx), ts.Cmp(OpBvSlt, sx, ts.BV(new(big.Int).Lsh(big.NewInt(1), uint(n)), w)))
+}
+
 // shrink drops redundant sign bits of constants so widths do not explode.
 func (e *Engine) shrink(t *Term) *Term {
 	if t.IsConst() {
@@ -247,57 +329,85 @@ func (e *Engine) intrinsic(st *State, name string, args []Value, c *ssa.CallComm
 	// ---- exact integers ----
 	case "ZU":
 		t := args[0].(*Term)
-		return &WideV{e.shrink(ts.Zext(t, t.W+1))}
+		return e.mkWide(ts.Zext(t, t.W+1))
 	case "ZI":
-		return &WideV{e.shrink(args[0].(*Term))}
+		return e.mkWide(args[0].(*Term))
 	case "ZBytes":
 		s := args[0].(*SliceV)
 		el, err := e.sliceElems(st, s)
 		if err != nil {
 			e.unsupported("ZBytes: %v", err)
 		}
-		acc := ts.BVu(0, 1)
+		var acc *Term
 		for _, b := range el {
-			acc = ts.Concat(acc, b.(*Term))
+			if acc == nil {
+				acc = b.(*Term)
+			} else {
+				acc = ts.Concat(acc, b.(*Term))
+			}
 		}
-		if len(el) == 0 {
-			acc = ts.BVu(0, 2)
+		if acc == nil {
+			return e.mkWide(ts.BVu(0, 2))
 		}
-		return &WideV{e.shrink(acc)}
+		return e.mkWide(ts.Zext(acc, acc.W+1))
 	case "Add":
-		x, y := e.wide2(args[0], args[1], 1)
-		return &WideV{e.shrink(ts.Bin(OpBvAdd, x, y))}
+		a, b := args[0], args[1]
+		if ua, ub, ok := e.unsigned2(a, b); ok {
+			w := max(ua.W, ub.W) + 1
+			return e.mkWide(ts.Zext(ts.Bin(OpBvAdd, ts.Zext(ua, w), ts.Zext(ub, w)), w+1))
+		}
+		x, y := e.wide2(a, b, 1)
+		return e.mkWide(ts.Bin(OpBvAdd, x, y))
 	case "Sub":
 		x, y := e.wide2(args[0], args[1], 1)
-		return &WideV{e.shrink(ts.Bin(OpBvSub, x, y))}
+		return e.mkWide(ts.Bin(OpBvSub, x, y))
 	case "Mul":
+		if ua, ub, ok := e.unsigned2(args[0], args[1]); ok {
+			return e.mkWide(e.limbMul(ua, ub))
+		}
 		x, y := e.wide(args[0]), e.wide(args[1])
 		w := x.W + y.W
-		return &WideV{e.shrink(ts.Bin(OpBvMul, ts.Sext(x, w), ts.Sext(y, w)))}
+		return e.mkWide(ts.Bin(OpBvMul, ts.Sext(x, w), ts.Sext(y, w)))
 	case "Div", "Mod":
+		if ua, ub, ok := e.unsigned2(args[0], args[1]); ok {
+			w := max(ua.W, ub.W)
+			xa, xb := ts.Zext(ua, w), ts.Zext(ub, w)
+			e.guard(st, ts.Ne(xb, ts.BVu(0, w)), "division by zero in exact-integer oracle")
+			op := OpBvUdiv
+			if name == "Mod" {
+				op = OpBvUrem
+			}
+			return e.mkWide(ts.Zext(ts.Bin(op, xa, xb), w+1))
+		}
 		x, y := e.wide2(args[0], args[1], 1)
 		e.guard(st, ts.Ne(y, ts.BVu(0, y.W)), "division by zero in exact-integer oracle")
 		if name == "Div" {
-			return &WideV{e.shrink(ts.Bin(OpBvSdiv, x, y))}
+			return e.mkWide(ts.Bin(OpBvSdiv, x, y))
 		}
-		return &WideV{e.shrink(ts.Bin(OpBvSrem, x, y))}
+		return e.mkWide(ts.Bin(OpBvSrem, x, y))
 	case "Neg":
 		x := e.wide(args[0])
-		return &WideV{e.shrink(ts.BvNeg(ts.Sext(x, x.W+1)))}
+		return e.mkWide(ts.BvNeg(ts.Sext(x, x.W+1)))
 	case "Shl":
 		x := e.wide(args[0])
 		n := e.concreteInt(st, args[1])
-		return &WideV{e.shrink(ts.Concat(x, ts.BVu(0, max(n, 1))))}
+		if n <= 0 {
+			return e.mkWide(x)
+		}
+		return e.mkWide(ts.Concat(x, ts.BVu(0, n)))
 	case "Shr":
 		x := e.wide(args[0])
 		n := e.concreteInt(st, args[1])
+		if n <= 0 {
+			return e.mkWide(x)
+		}
 		if n >= x.W-1 {
 			n = x.W - 2
 		}
 		if n <= 0 {
-			return &WideV{x}
+			return e.mkWide(x)
 		}
-		return &WideV{e.shrink(ts.Extract(x, x.W-1, n))}
+		return e.mkWide(ts.Sext(ts.Extract(x, x.W-1, n), x.W-n+1))
 	case "Lt":
 		x, y := e.wide2(args[0], args[1], 0)
 		return ts.Cmp(OpBvSlt, x, y)
@@ -314,20 +424,12 @@ func (e *Engine) intrinsic(st *State, name string, args []Value, c *ssa.CallComm
 		x, y := e.wide2(args[0], args[1], 0)
 		return ts.Eq(x, y)
 	case "IsU64":
-		x := e.wide(args[0])
-		w := max(x.W, 66)
-		sx := ts.Sext(x, w)
-		return ts.And(ts.Cmp(OpBvSle, ts.BVu(0, w), sx), ts.Cmp(OpBvSlt, sx, ts.BV(new(big.Int).Lsh(big.NewInt(1), 64), w)))
+		return e.fitsBits(e.wide(args[0]), 64)
 	case "U64Trunc":
 		x := e.wide(args[0])
 		return ts.Extract(ts.Sext(x, max(x.W, 64)), 63, 0)
 	case "Fits":
-		// Fits(z, bits): 0 <= z < 2^bits
-		x := e.wide(args[0])
-		n := e.concreteInt(st, args[1])
-		w := max(x.W, n+2)
-		sx := ts.Sext(x, w)
-		return ts.And(ts.Cmp(OpBvSle, ts.BVu(0, w), sx), ts.Cmp(OpBvSlt, sx, ts.BV(new(big.Int).Lsh(big.NewInt(1), uint(n)), w)))
+		return e.fitsBits(e.wide(args[0]), e.concreteInt(st, args[1]))
 	}
 	if name == "init" {
 		return nil
@@ -412,7 +514,7 @@ func (e *Engine) ufApply(st *State, name string, in []*Term, w int) *Term {
 		out = ts.Var(fmt.Sprintf("uf!%s#%d", name, n), w)
 		for _, app := range st.ufApps[name] {
 			eq := e.inEq(app.in, in)
-			st.pc = append(st.pc, ts.Eq(eq, ts.Eq(app.out[0], out)))
+			e.addPC(st, ts.Eq(eq, ts.Eq(app.out[0], out)))
 		}
 		st.nondets = append(st.nondets, NondetRec{Var: out, Label: "uf!" + name, Kind: "uf"})
 	}
@@ -438,7 +540,7 @@ func (e *Engine) ufApplyNI(st *State, name string, in []*Term, w int) *Term {
 		out = ts.Var(fmt.Sprintf("uf!%s#%d", name, n), w)
 		for _, app := range st.ufApps[name] {
 			eq := e.inEq(app.in, in)
-			st.pc = append(st.pc, ts.Implies(eq, ts.Eq(app.out[0], out)))
+			e.addPC(st, ts.Implies(eq, ts.Eq(app.out[0], out)))
 		}
 		st.nondets = append(st.nondets, NondetRec{Var: out, Label: "uf!" + name, Kind: "uf"})
 	}
